@@ -98,11 +98,13 @@ Qed.
 (* ---------- parse cache ---------- *)
 Lemma cache_parse_ideal E w k : cache_sound E (w_cache w) ->
   let w' := fst (cache_parse E w k) in
-  snd (cache_parse E w k) = match e_parse E k with Some t => Ok t | None => SigmaErr E_Condition end
+  snd (cache_parse E w k) = (if mem c_pipe k then SigmaErr E_Condition else
+                             match e_parse E k with Some t => Ok t | None => SigmaErr E_Condition end)
   /\ cache_sound E (w_cache w') /\ w_tpl w' = w_tpl w /\ w_owner w' = w_owner w /\ w_ps w' = w_ps w
   /\ w_bks w' = w_bks w /\ w_next w' = w_next w.
 Proof.
-  intros Hc. unfold cache_parse. destruct (lookup k (w_cache w)) as [t|] eqn:El.
+  intros Hc. unfold cache_parse. destruct (mem c_pipe k); [simpl; repeat split; try reflexivity; exact Hc|].
+  destruct (lookup k (w_cache w)) as [t|] eqn:El.
   - simpl. rewrite (Hc k t El). repeat split; try reflexivity. exact Hc.
   - destruct (e_parse E k) as [t|] eqn:Ep; simpl; repeat split; try reflexivity; try exact Hc.
     intros k' t'. simpl. destruct (str_eqb k' k) eqn:Ek.
@@ -124,7 +126,10 @@ Proof.
   - split; [reflexivity|]. split; [split; assumption | repeat split].
   - destruct (cache_parse_ideal E w k Hc) as [Hp [Hc1 [Ht1 [Ho1 [Hps1 [Hb1 Hn1]]]]]].
     destruct (cache_parse E w k) as [w1 pt]. simpl in *. subst pt.
-    unfold ideal_cond at 1. destruct (e_parse E k) as [t|]; simpl.
+    unfold ideal_cond at 1. destruct (mem c_pipe k); simpl;
+      [split; [reflexivity|]; split; [split; [rewrite Ht1; exact Ht | exact Hc1]|];
+       unfold same_conv; repeat split; assumption|].
+    destruct (e_parse E k) as [t|]; simpl.
     + destruct (resolve dets t) as [ct|e|e]; simpl.
       * assert (Ht1' : tpl_orig (w_tpl w1)) by (rewrite Ht1; exact Ht).
         destruct (render_ideal (e_ne E cls) cls ct false (w_tpl w1) Ht1') as [H1 H2].
